@@ -13,6 +13,7 @@ WHAT = {"schema-not-announced": "the server datamodel changed but no dataschema 
         "event-of-new-type-before-schema": "an event of a new type precedes the schema that introduces it",
         "event-with-new-attribute-before-schema": "an event carries a new attribute before the schema that introduces it",
         "no-removed-event-for-object-of-dropped-type": "a published object of a removed type got no 'removed' event",
+        "stream-prefix-not-closed": "a prefix of the bus is not referentially closed (parent withdrawn before its child, or child announced before its parent)",
         "local-data-differ-from-fresh-deployment": "after the edit and draining, the client's local data differ from a fresh deployment of the final configurations",
         "target-differs-from-fresh-deployment": "after the edit and draining, the target differs from a fresh deployment of the final configurations",
         "queue-not-drained": "the error queue does not drain after the edit", "client-raises": "the client raises at every iteration after the edit"}
